@@ -94,6 +94,9 @@ def gen_calls(ctx):
         key = json.dumps([kind] + list(args))
         if key in seen: return
         seen.add(key)
+        if kind == "arg" and args[0][0] == "calc": sub = "int-valued-rational-index"
+        elif kind == "arg" and args[0][0] == "int" and args[0][1] >= 2 ** 63: sub = "huge-index"
+        elif kind == "functor" and args[2][0] == "calc": sub += "-rational-arity"
         calls.append({"kind": kind, "sub": sub, "args": list(args)})
 
     # a few fixed boundary cases (always present)
@@ -167,7 +170,7 @@ def gen_calls(ctx):
                             terms.NIL, terms.mklist([A("a")], O1), ("str", "ab"), terms.mklist([O1, O1])])
             add("tvars", "any", t, L)
         elif r < 0.9:
-            t = small(g) if rng.random() < 0.5 else small(Gen(rng, 1, False)).__class__ and ground_term(rng)
+            t = small(g) if rng.random() < 0.5 else ground_term(rng)
             add("ground", "any", t)
         else:
             s = small(g)
@@ -237,6 +240,8 @@ def build_jobs(calls):
 def classify(ans):
     try:
         a = terms.answers(ans)
+        if a and a[0] == ("ball", ("atom", "c23_too_big")):
+            return "ICyclic", "succeeds with cyclic bindings"
         if not a or a[0][0] != "sol":
             return "IOther", json.dumps(ans)[:200]
         items, tail = terms.list_view(a[0][1]["L"])
@@ -301,7 +306,7 @@ def run(ctx):
         goal = goal_text(c, calcs)
         pre = "".join("K%d is %s, " % (j, e) for j, e in enumerate(calcs))
         paths = [p for p, oo in obs[i] if oo[0] == o[0]]
-        kind = "panic" if "panic" in o[1] else {"IFail": "fail", "IOther": "other"}.get(o[0], "error" if o[0].startswith("(IErr") else "ok")
+        kind = "panic" if "panic" in o[1] else {"IFail": "fail", "IOther": "other", "ICyclic": "cyclic"}.get(o[0], "error" if o[0].startswith("(IErr") else "ok")
         key = "builtin:%s:%s:%s" % (c["kind"], c["sub"], kind)
         per_key[key] = per_key.get(key, 0) + 1
         if per_key[key] > 4 or len(failures) >= 40:
@@ -317,7 +322,7 @@ def run(ctx):
     for i, c in enumerate(calls):
         dist["builtin"][c["kind"]] = dist["builtin"].get(c["kind"], 0) + 1
         o = obs[i][0][1]
-        k = {"IFail": "fail", "IOther": "other"}.get(o[0], "error" if o[0].startswith("(IErr") else "ok")
+        k = {"IFail": "fail", "IOther": "other", "ICyclic": "cyclic"}.get(o[0], "error" if o[0].startswith("(IErr") else "ok")
         dist["impl_outcome"][c["kind"] + ":" + k] = dist["impl_outcome"].get(c["kind"] + ":" + k, 0) + 1
         if any(has_str(a) for a in c["args"]): dist["with_strings"] += 1
         if any(expand(a)[0] == "cmp" for a in c["args"]) or k == "error":
